@@ -301,7 +301,7 @@ def concrete_playback(h, target_dir, timeout=900):
     return tests, out
 
 
-def native_replay(h, test_src, timeout=600):
+def native_replay(h, test_src, timeout=600, fail_locs=None):
     """append the generated #[test] to a scratch copy of the harness crate and run it natively with
     `cargo kani playback` (dev profile = the profile Kani models) -- the real /repo code runs with the
     solver's concrete values. Returns (reproduced, output)."""
@@ -323,4 +323,12 @@ def native_replay(h, test_src, timeout=600):
     ran = "running 1 test" in out
     if not ran:
         return None, out
+    # A native panic INSIDE THE HARNESS FILE only confirms the counterexample when it is the check the solver reported:
+    # harnesses with #[kani::stub]s run un-stubbed natively, so an unrelated harness assertion can trip (that would be an
+    # encoding mismatch, not a defect of /repo). Panics inside /repo or std are accepted as they are.
+    if reproduced and fail_locs is not None:
+        for m in re.finditer(r"panicked at (\S+?):(\d+):\d+", out):
+            f, ln = os.path.basename(m.group(1)), int(m.group(2))
+            if f == h.module + ".rs" and m.group(1).startswith("src/") and (f, ln) not in fail_locs:
+                return False, out + f"\n[native panic at {m.group(1)}:{ln} is a harness assertion the solver did not report: not counted as reproduced]"
     return reproduced, out
